@@ -9,17 +9,19 @@ classes, the timers, Delay.  What is substituted, from outside the repository:
   * time.time (= epoch + virtual clock) while a script runs,
   * Outgoing._setup (creates a FakeIO instead of a kernel socket),
   * reactor.processes (a recording stub),
-and observation wrappers on FSM.change, Peer._run, Peer._read_open, Protocol.new_update_generator,
-ReceiveTimer.check_ka, Outgoing.establish_async.
+  * Connection.__del__ (same effect, the close is recorded as done by the finaliser),
+and observation wrappers on FSM.change, Peer._run (attempt started), Peer._read_open / Peer._read_ka (their timers
+firing), Peer._send_operational_messages (the send phase of a main-loop iteration that has something to send),
+ReceiveTimer.check_ka (hold timer firing), Outgoing.establish_async (connect resolved).
 
 The observed trace is one ordered list of entries
-  ['ev', name, arg]            abstract event, logged at the moment the stimulus takes effect in the
+  ['ev', name, arg, fsm]       abstract event, logged at the moment the stimulus takes effect in the
                                implementation (bytes of a message consumed by the reader, connect resolved,
                                timer fired, handle_connection/teardown called, _run entered ...)
   ['fsm', a, b]                FSM.change(b) called with FSM.state == a
   ['w', tid, kind, c, s, st]   one BGP message written on transport tid while FSM.state == st
   ['close', tid, how]          transport closed (how = 'close' | 'gc')
-  ['api', what]                Processes.up/down/connected
+  ['api', what(, tid)]         Processes.up/down/connected (connected: the transport just taken)
 """
 
 from __future__ import annotations
